@@ -19,6 +19,7 @@ The model is `CddVerif/Model/Sql.lean` (tied to /repo by `harness/props/c05.py`)
         `normDoc_clean`, `normVal_plain` say the per-column normalisation is the identity on clean descriptions / plain
         defaults (up to the `.` appended to the description of a column with a default).
         Negations on witnesses: `dict_becomes_optional`, `single_literal_lost`, `ensurePK_replaces_id`, `C05_full_false`.
+* names: `names_untouched` — column names are opaque strings; which modelled steps inspect them.
 * header: `header_text_agrees` — the text handed to the docstring emitter agrees between the variants (the docstring
         emitter / parser themselves are not modelled); `header_text_before_fix` records the repaired defect.
 * (iii) `variants_agree` — **full** (every parameter dict, typed or not, failing or not), `table_to_class_round_trip`.
@@ -260,6 +261,28 @@ theorem C05_full_false : ¬ C05_full := by
     (by decide) (by decide) (by decide) (by decide) (by decide) (by decide)).2.2.2.1
   revert this
   decide
+
+/-! ## column names -/
+
+/-- **column names are opaque.** For the model a column name is an arbitrary string (any code points).  The only
+    modelled steps that look inside a name are: the primary-key candidate rule `isCandidate`
+    (`"_name" in k or "_id" in k or "id_" in k or k == "id"`, substring tests), `endsWith name "kwargs"` (no `.` is
+    appended to such a column's description), `set_value`'s quote stripping `setValueStr`, and the two class
+    attributes the class parser reserves (`plainNames`: `__tablename__`, `__table__`).  This theorem discharges the
+    domain hypothesis `setValueStr name = name` for every name that does not start with a quote character — in
+    particular for every Python identifier, ASCII or not (`größe`, `名前`, `class_`, `metadata`, `__x`). -/
+theorem names_untouched (name : Str) (h1 : name.head? ≠ some '"') (h2 : name.head? ≠ some '\'') :
+    setValueStr name = name := by
+  unfold setValueStr
+  have e1 : (name.head? == some '"') = false := by simpa using h1
+  have e2 : (name.head? == some '\'') = false := by simpa using h2
+  simp [e1, e2]
+
+/-- non-vacuity with non-ASCII identifiers: the candidate rule is the same substring test, the round trip keeps the name -/
+example : isCandidate c!"größen_id" = true ∧ isCandidate c!"größe" = false ∧ isCandidate c!"名前_id" = true ∧
+    inDomain c!"größe" { typ := some (some (.name c!"int")) } = true ∧
+    andThen (paramToColumn true (c!"größe", { typ := some (some (.name c!"int")) })) columnToParam
+      = .ok (c!"größe", { typ := some c!"int", xSqlType := some c!"Integer" }) := by decide
 
 /-! ## the header description (the interface's own `doc`) -/
 
